@@ -15,6 +15,7 @@ class ToGFA1:
       gfapy.Field._validate_gfa_field(oline.name, "segment_name_gfa1")
       segment_names.append(str(oline))
     a.append(",".join(segment_names))
+    self._check_gfa1_path_steps()
     overlaps = []
     for oline in self.captured_edges:
       overlap = oline.line.overlap
@@ -27,3 +28,28 @@ class ToGFA1:
     for tn in self.tagnames:
       a.append(self.field_to_s(tn, tag=True))
     return a
+
+  def _check_gfa1_path_steps(self):
+    """
+    A GFA1 path goes from a segment to the next one over a link: each edge
+    of the captured path must be a dovetail overlap which leaves the end of
+    the previous segment and enters the next one (as written if the edge is
+    traversed forwards, as its complement if it is traversed backwards).
+    """
+    cp = self.captured_path
+    for i in range(1, len(cp)-1, 2):
+      prev, oedge, nxt = cp[i-1], cp[i], cp[i+1]
+      edge = oedge.line
+      if not edge.is_dovetail():
+        ok = False
+      elif oedge.orient == "+":
+        ok = (edge.oriented_from == prev and edge.oriented_to == nxt)
+      else:
+        ok = (edge.oriented_from == nxt.inverted() and
+              edge.oriented_to == prev.inverted())
+      if not ok:
+        raise gfapy.ValueError(
+          "Conversion to GFA1 failed\n"+
+          "The step from {} to {} over the edge {} ".format(prev, nxt, oedge)+
+          "is not a link from the first to the second segment\n"+
+          "Line: {}".format(self))
